@@ -26,14 +26,23 @@ def expected_value(ver, m, metric):
     return v
 
 
-def check_vector(P, ver, s):
+def check_vector(P, ver, s, built=None):
+    """built: how the judged object is obtained (obs.build): None = the constructor, else from_rh_vector / a copy /
+    a pickle round trip / the text extractor."""
     L = lib()
     P.evaluations += 1
     case = {"ver": ver, "vector": s}
-    ok, o = obs.call(L.CLS[ver], s)
+    if built:
+        case["built"] = built
+    ok, o = obs.call(obs.build, L, ver, s, built)
     if not ok:
         P.violation("construct", "C15:v%s:exception:%s" % (ver, obs.exc_name(o)), case, error=repr(o))
         return
+    if o is None:
+        P.stratum("object-not-obtainable-by:" + str(built))
+        return
+    if built:
+        P.stratum("object-obtained-by:" + built)
     prefix, fields = T.parse(ver, s)
     m = dict(fields)
     subs = {}
@@ -82,7 +91,7 @@ def check_vector(P, ver, s):
 
 
 def check_case(P, case):
-    check_vector(P, case["ver"], case["vector"])
+    check_vector(P, case["ver"], case["vector"], case.get("built"))
 
 
 def workload(rng, ver, n):
@@ -124,6 +133,8 @@ def shard(P, ver, idx, nshards, n, seed):
         s = V.spell(p, m, "shuffle" if j % 2 else None, rng2)
         P.dist(s)
         check_vector(P, ver, s)
+        if P.evaluations % 2 == 0:
+            check_vector(P, ver, s, obs.BUILT[(P.evaluations // 2) % len(obs.BUILT)])
         if j % 799 == 0:
             P.sample({"ver": ver, "vector": s})
 
